@@ -4,4 +4,7 @@ import Fir.Props.C15
 #print axioms Fir.C15.fitQ_spans
 #print axioms Fir.C15.fitQ_centering
 #print axioms Fir.C15.fitQ_aspect_exact
+#print axioms Fir.C15.fitF_spans
+#print axioms Fir.C15.fitF_origin
+#print axioms Fir.C15.fitF_centering_zero
 #print axioms Fir.C15.fit_source_as_modelled
